@@ -359,11 +359,14 @@ def tsan_stress(rep, tier, outputs=("file", "devlog", "stdout")):
                                   dict(output=out, threads=nthreads, frames=f1[key]))
     # record integrity under free-running threads: records longer than a stdio / pipe buffer (9 KB) must still come out whole, one line per call
     pad = 9000
-    for out in ("stdout", "file"):
+    # the third variant runs a filter chain that passes every call (long lists that are tokenised on every call, the caller's uid listed last)
+    chain = 'filter_chain = "exclude_spawns_of:%s;only_uid:%s,0;exclude_uid:%s"\n' % (
+        ",".join("p%02d" % i for i in range(30)), ",".join(str(1000 + i) for i in range(60)), ",".join(str(2000 + i) for i in range(60)))
+    for out in ("stdout", "file", "file+filters"):
         log = os.path.join(root, "whole-%s.log" % out)
         ini = os.path.join(root, "whole-%s.ini" % out)
-        open(ini, "w").write('[snoopy]\nmessage_format = "%%{filename} %%{cmdline}"\noutput = %s\ndatasource_message_max_length = 20000\nlog_message_max_length = 40000\n' % (
-            "file:" + log if out == "file" else "stdout"))
+        open(ini, "w").write('[snoopy]\nmessage_format = "%%{filename} %%{cmdline}"\noutput = %s\ndatasource_message_max_length = 20000\nlog_message_max_length = 40000\n%s' % (
+            "file:" + log if out.startswith("file") else "stdout", chain if out == "file+filters" else ""))
         for attempt in range(2 if tier == "quick" else 6):
             if os.path.exists(log):
                 os.unlink(log)
